@@ -17,6 +17,9 @@ pub struct MsgMut {
     pub bytes: Arc<Vec<u8>>,
     /// does it change an element count / drop an optional / is it byte-level malformed?
     pub malformed: bool,
+    /// node path and mutation for structure-aware mutations
+    pub path: Option<Vec<usize>>,
+    pub node: Option<NodeMut>,
 }
 
 fn pick_indices(n: usize, k: usize) -> Vec<usize> {
@@ -37,7 +40,7 @@ pub fn byte_level(ty: &Ty, val: &Val, bytes: &[u8], salt: u64, cap: usize) -> Ve
     let mut out = vec![];
     let mut push = |class: &str, detail: String, b: Vec<u8>| {
         if b != bytes {
-            out.push(MsgMut { class: format!("byte:{class}"), detail, bytes: Arc::new(b), malformed: true });
+            out.push(MsgMut { class: format!("byte:{class}"), detail, bytes: Arc::new(b), malformed: true, path: None, node: None });
         }
     };
     push("empty", "empty message".into(), vec![]);
@@ -114,6 +117,8 @@ pub fn structural(ty: &Ty, val: &Val, cap: usize, only_counts: bool, extra_xor: 
                 detail: format!("{} at path {:?}", m.name(), path),
                 bytes: Arc::new(b),
                 malformed: m.changes_count(),
+                path: Some(path.clone()),
+                node: Some(m.clone()),
             });
         }
     }
